@@ -1,6 +1,8 @@
 package main
 
 import (
+	"runtime/debug"
+	"runtime/pprof"
 	"sort"
 	"flag"
 	"fmt"
@@ -23,6 +25,12 @@ func main() {
 		fmt.Fprintln(os.Stderr, "usage: govc check -property <id> [-tier quick|thorough] | func <name> | ghost | list")
 		os.Exit(2)
 	}
+	if pf := os.Getenv("GOVC_PROF"); pf != "" {
+		f, _ := os.Create(pf)
+		pprof.StartCPUProfile(f)
+		defer pprof.StopCPUProfile()
+	}
+	debug.SetGCPercent(800)
 	cmd := os.Args[1]
 	fs := flag.NewFlagSet(cmd, flag.ExitOnError)
 	repo := fs.String("repo", "/repo", "repository directory")
@@ -75,6 +83,7 @@ func main() {
 				code = 1
 			}
 		}
+		pprof.StopCPUProfile()
 		os.Exit(code)
 	case "check":
 		os.Exit(runCheck(*repo, *out, *prop, *tier, *timeout, seed, *verbose, *keep))
